@@ -54,6 +54,8 @@ type c19Prog struct {
 	// Second: another revision of the program, written into the same directory, built and
 	// crashed after the first one was analysed (same file names, different contents).
 	Second *c19Prog `json:",omitempty"`
+	// CRLF: the sources have Windows line endings (the compiler does not care).
+	CRLF bool `json:",omitempty"`
 }
 
 var scalarTypes = []string{"bool", "int", "int8", "int16", "int32", "int64", "uint", "uint8", "uint16", "uint32", "uint64", "float32", "float64"}
@@ -291,6 +293,9 @@ func (p *c19Prog) sources() map[string]string {
 		fmt.Fprintf(&b, "\tcase \"%d\":\n\t\t%s\n", c, p.call(c, 0))
 	}
 	b.WriteString("\t}\n}\n")
+	if p.CRLF {
+		return map[string]string{"main.go": strings.ReplaceAll(b.String(), "\n", "\r\n"), "b.go": strings.ReplaceAll(b2.String(), "\n", "\r\n")}
+	}
 	return map[string]string{"main.go": b.String(), "b.go": b2.String()}
 }
 
@@ -341,6 +346,7 @@ var rePTR = regexp.MustCompile(`(?m)^PTR (\d+) ([0-9a-f]+)$`)
 type crash struct {
 	stderr []byte
 	ptrs   map[int]uint64
+	base   [2]*stack.Snapshot // scans against the matching sources, naming off / on
 }
 
 func goTool() string {
@@ -523,11 +529,38 @@ func harmless(with, without *stack.Snapshot) error {
 var mutationNames = []string{"none", "file deleted", "file unparsable", "lines inserted above", "parameter added", "parameter removed", "parameter retyped", "function renamed", "file replaced", "file truncated",
 	// edits that still parse (go/parser checks syntax only) but declare something else than
 	// what was compiled
-	"receiver list emptied", "two receivers", "receiver dropped", "receiver added", "value receiver", "parameters unnamed", "type parameters added", "last parameter variadic", "parameters retyped exotically", "body moved into a closure", "parameters grouped"}
+	"receiver list emptied", "two receivers", "receiver dropped", "receiver added", "value receiver", "parameters unnamed", "type parameters added", "last parameter variadic", "parameters retyped exotically", "body moved into a closure", "parameters grouped",
+	// one file of the two only
+	"only b.go deleted", "only main.go deleted", "only b.go unparsable", "only main.go unparsable"}
+
+// goneFile tells whether the mutation kind leaves the named source file missing or
+// unparsable - the two cases in which its frames must stay unaugmented altogether.
+func goneFile(kind int, name string) bool {
+	switch mutationNames[kind] {
+	case "file deleted", "file unparsable":
+		return true
+	case "only b.go deleted", "only b.go unparsable":
+		return name == "b.go"
+	case "only main.go deleted", "only main.go unparsable":
+		return name == "main.go"
+	}
+	return false
+}
+
+func perFileKind(kind int) bool { return strings.HasPrefix(mutationNames[kind], "only ") }
 
 var exoticTypes = []string{"struct{ a int }", "interface{ M() }", "[4]int", "*[]int", "func(int) (string, error)", "map[string][]int", "os.File", "[]os.FileMode", "<-chan int", "chan<- []int", "T[int]", "[]T[int, string]", "*U", "[...]int", "[2][]string", "(int)", "*(*int)", "struct{}", "any", "error", "uintptr", "complex128", "unsafe.Pointer", "[]*struct{ x, y int }"}
 
-func mutateSource(src string, kind int) (string, bool) {
+func mutateSource(name, src string, kind int) (string, bool) {
+	if perFileKind(kind) {
+		if !goneFile(kind, name) {
+			return src, true
+		}
+		if strings.HasSuffix(mutationNames[kind], "deleted") {
+			return "", false
+		}
+		return "package main\nfunc ((( {\n" + src, true
+	}
 	switch kind {
 	case 1:
 		return "", false
@@ -612,6 +645,11 @@ func c19Check(p c19Prog, dir string) error {
 			if err := harmless(with, without); err != nil {
 				return fmt.Errorf("chain %d (sources: %s): %v", c, mutationNames[p.Mutate], err)
 			}
+			if naming {
+				crashes[ci].base[1] = with
+			} else {
+				crashes[ci].base[0] = with
+			}
 			for f, fn := range p.Chains[c].Funcs {
 				name := p.name(c, f)
 				if fn.Recv {
@@ -692,7 +730,7 @@ func c19Check(p c19Prog, dir string) error {
 func c19Mismatch(p *c19Prog, dir string, crashes []crash, kind int) error {
 	st := statsFor("C19")
 	for name, orig := range p.sources() {
-		src, keep := mutateSource(orig, kind)
+		src, keep := mutateSource(name, orig, kind)
 		if keep {
 			_ = os.WriteFile(filepath.Join(dir, name), []byte(src), 0o644)
 		} else {
@@ -716,6 +754,33 @@ func c19Mismatch(p *c19Prog, dir string, crashes []crash, kind int) error {
 		if err := harmless(with, without); err != nil {
 			return fmt.Errorf("chain %d (sources: %s): %v", c, mutationNames[kind], err)
 		}
+		// A missing or unparsable file leaves its frames unaugmented; the frames of a file
+		// that is still what was compiled are rendered as with the complete tree.
+		bi := 0
+		if naming {
+			bi = 1
+		}
+		for gi, g := range with.Goroutines {
+			for i := range g.Stack.Calls {
+				call := &g.Stack.Calls[i]
+				file := filepath.Base(call.RemoteSrcPath)
+				if file != "main.go" && file != "b.go" || filepath.Dir(call.RemoteSrcPath) != dir {
+					continue
+				}
+				if goneFile(kind, file) {
+					if len(call.Args.Processed) != 0 {
+						return fmt.Errorf("chain %d (sources: %s): frame %s lies in %s, which cannot be analysed, yet its arguments are rendered as %q (raw: %s)", c, mutationNames[kind], call.Func.Name, file, call.Args.Processed, call.Args.String())
+					}
+					st.class("frames_required_unaugmented", 1)
+				} else if perFileKind(kind) && cr.base[bi] != nil {
+					want := cr.base[bi].Goroutines[gi].Stack.Calls[i].Args.Processed
+					if !reflect.DeepEqual(call.Args.Processed, want) {
+						return fmt.Errorf("chain %d (sources: %s): frame %s lies in %s, which is unchanged, but is rendered as %q instead of %q", c, mutationNames[kind], call.Func.Name, file, call.Args.Processed, want)
+					}
+					st.class("frames_of_the_intact_file_compared", 1)
+				}
+			}
+		}
 		st.count(1, 1)
 		st.class("mismatching_sources_"+strings.ReplaceAll(mutationNames[kind], " ", "_"), 1)
 	}
@@ -726,6 +791,7 @@ var c19 = Check[c19Prog]{
 	Prop: "C19", Name: "programs",
 	Gen: func(t *rapid.T) c19Prog {
 		p := genProg(t, n(12, 20))
+		p.CRLF = oneIn(t, 4, "crlfSources")
 		if oneIn(t, 4, "mismatch") {
 			p.Mutate = rapid.IntRange(1, len(mutationNames)-1).Draw(t, "mutation")
 		} else if oneIn(t, 3, "secondRevision") {
